@@ -180,3 +180,223 @@ Theorem C08_three_parts_together :
   exists st' : ser_state, fold_res (collect_type_info db_part) ser_state0 three_parts' = Ok st'.
 Proof. exact three_parts_together. Qed.
 
+(* ==== TOTALITY OF THE SERIALIZER AND THE C08 CLAUSE AS ONE THEOREM (Proofs/BinKnownProps.v).
+   enc_col succeeds exactly on lists of accepted values (col_accepts: an executable table of the arms of serialize_properties for all 31 wire
+   types, agreeing with the table regenerated from the source; the two value-dependent failures are Attributes that do not encode and a
+   SharedString missing from the table), and the first rejected value determines the outcome.  encode_chunks / encode_file are total on every
+   forest whose instances meet the executable predicate inst_ok — proved to be EXACTLY "the instance serializes on its own" — under the
+   type-consistency hypothesis for database-unknown names and an executable per-class database check (class_cols_ok: defaults and migration
+   outputs are writable by their column; passed by all 797 bundled classes); the model's fuel is shown sufficient.  Hence: if each instance of a
+   same-class set serializes alone, the set serializes in EVERY sibling order (each_alone_then_set_any_order, bundled instance).  Hypotheses shown
+   necessary by witnesses; the converse fails (a set can serialize although one member alone does not: the recorded mixed-types class).
+   written_columns_spec: per instance and column the writer holds the instance's own (migrated) value, or the (migrated) nearest-ancestor
+   default when it carries no spelling, never a class-mate's. *)
+From RbxVerif Require Import Attr BinPostorder BinStructure BinKnownProps.
+From RbxVerif Require BinRoundTrip Database.
+
+Theorem C08_enc_col_ok_iff :
+  forall (ty : wire_type) (c : enc_ctx) (vs : list value),
+       (exists b : bytes, enc_col ty c vs = Ok b) <-> Forall (fun v : value => col_accepts ty c v = true) vs.
+Proof. exact enc_col_ok_iff. Qed.
+
+Theorem C08_enc_col_rejects :
+  forall (ty : wire_type) (c : enc_ctx) (vs : list value) (v : value),
+       In v vs -> col_accepts ty c v = false -> forall b : bytes, enc_col ty c vs <> Ok b.
+Proof. exact enc_col_rejects. Qed.
+
+Theorem C08_enc_col_first_reject :
+  forall (ty : wire_type) (c : enc_ctx) (pre : list value) (v : value) (post : list value),
+       Forall (fun v0 : value => col_accepts ty c v0 = true) pre ->
+       col_accepts ty c v = false -> enc_col ty c (pre ++ v :: post) = reject_outcome ty v.
+Proof. exact enc_col_first_reject. Qed.
+
+Theorem C08_col_accepts_split :
+  forall (ty : wire_type) (c : enc_ctx) (v : value),
+       col_accepts ty c v = val_accepts ty v && sstr_known c v.
+Proof. exact col_accepts_split. Qed.
+
+Theorem C08_encode_chunks_total :
+  forall (d : db) (p : enc_params) (dom : cdom) (ts : list tree),
+       enc_ready d p dom ts ->
+       dom_types_agree d dom ->
+       (forall i : inst, In i dom -> class_good d (i_class i)) ->
+       (forall i : inst, In i dom -> inst_ok d p i = true) ->
+       exists e : encoded, encode_chunks d p dom (List.map root ts) = Ok e.
+Proof. exact encode_chunks_total. Qed.
+
+Theorem C08_encode_file_total :
+  forall (d : db) (p : enc_params) (cmp : compression) (dom : cdom) (ts : list tree),
+       enc_ready d p dom ts ->
+       dom_types_agree d dom ->
+       (forall i : inst, In i dom -> class_good d (i_class i)) ->
+       (forall i : inst, In i dom -> inst_ok d p i = true) ->
+       exists b : bytes, encode_file d p cmp dom (List.map root ts) = Ok b.
+Proof. exact encode_file_total. Qed.
+
+Theorem C08_each_alone_then_set_any_order :
+  forall (d : db) (p : enc_params) (cmp : compression) (class : bytes) (insts : list inst),
+       flat_siblings class insts ->
+       (Z.of_nat (Datatypes.length insts) <= 2147483647)%Z ->
+       (forall l : list bytes, Permutation.Permutation (ep_order p l) l) ->
+       (forall s : bytes, In s (dom_sstrs d insts) -> bfind s (ep_hash p) <> None) ->
+       class_good d class ->
+       types_agree d class (flat_map i_props insts) ->
+       migrations_agree d class (flat_map i_props insts) ->
+       (forall i : inst, In i insts -> inst_one_spelling d i) ->
+       (forall i : inst, In i insts -> exists b : bytes, encode_file d p cmp [i] [i_ref i] = Ok b) ->
+       forall insts' : list inst,
+       Permutation.Permutation insts insts' ->
+       exists b : bytes, encode_file d p cmp insts' (List.map i_ref insts') = Ok b.
+Proof. exact each_alone_then_set_any_order. Qed.
+
+Theorem C08_each_alone_then_set_any_order_bundled :
+  forall (p : enc_params) (cmp : compression) (class : bytes) (insts : list inst),
+       flat_siblings class insts ->
+       (Z.of_nat (Datatypes.length insts) <= 2147483647)%Z ->
+       (forall l : list bytes, Permutation.Permutation (ep_order p l) l) ->
+       (forall s : bytes, In s (dom_sstrs Database.database insts) -> bfind s (ep_hash p) <> None) ->
+       (forall (n : bytes) (v1 v2 : value),
+        In (n, v1) (flat_map i_props insts) ->
+        In (n, v2) (flat_map i_props insts) ->
+        known_resolve Database.database (string_of_bytes class) (string_of_bytes n) = Ok None ->
+        vtype v1 = vtype v2) ->
+       (forall i : inst, In i insts -> inst_one_spelling Database.database i) ->
+       (forall i : inst,
+        In i insts -> exists b : bytes, encode_file Database.database p cmp [i] [i_ref i] = Ok b) ->
+       forall insts' : list inst,
+       Permutation.Permutation insts insts' ->
+       exists b : bytes, encode_file Database.database p cmp insts' (List.map i_ref insts') = Ok b.
+Proof. exact each_alone_then_set_any_order_bundled. Qed.
+
+Theorem C08_encode_total_same_class :
+  forall (d : db) (p : enc_params) (cmp : compression) (class : bytes) (insts : list inst),
+       flat_siblings class insts ->
+       (Z.of_nat (Datatypes.length insts) <= 2147483647)%Z ->
+       (forall l : list bytes, Permutation.Permutation (ep_order p l) l) ->
+       (forall s : bytes, In s (dom_sstrs d insts) -> bfind s (ep_hash p) <> None) ->
+       class_good d class ->
+       types_agree d class (flat_map i_props insts) ->
+       migrations_agree d class (flat_map i_props insts) ->
+       (forall i : inst, In i insts -> inst_ok d p i = true) ->
+       forall insts' : list inst,
+       Permutation.Permutation insts insts' ->
+       exists b : bytes, encode_file d p cmp insts' (List.map i_ref insts') = Ok b.
+Proof. exact encode_total_same_class. Qed.
+
+Theorem C08_alone_serializes_inst_ok :
+  forall (d : db) (p : enc_params) (cmp : compression) (i : inst),
+       i_parent i <> i_ref i ->
+       inst_one_spelling d i ->
+       types_agree d (i_class i) (i_props i) ->
+       migrations_agree d (i_class i) (i_props i) ->
+       (forall l : list bytes, Permutation.Permutation (ep_order p l) l) ->
+       (exists b : bytes, encode_file d p cmp [i] [i_ref i] = Ok b) -> inst_ok d p i = true.
+Proof. exact alone_serializes_inst_ok. Qed.
+
+Theorem C08_inst_ok_alone_serializes :
+  forall (d : db) (p : enc_params) (cmp : compression) (i : inst),
+       i_parent i = 0 ->
+       i_ref i <> 0 ->
+       (forall l : list bytes, Permutation.Permutation (ep_order p l) l) ->
+       (forall s : bytes, In s (dom_sstrs d [i]) -> bfind s (ep_hash p) <> None) ->
+       class_good d (i_class i) ->
+       types_agree d (i_class i) (i_props i) ->
+       migrations_agree d (i_class i) (i_props i) ->
+       inst_ok d p i = true -> exists b : bytes, encode_file d p cmp [i] [i_ref i] = Ok b.
+Proof. exact inst_ok_alone_serializes. Qed.
+
+Theorem C08_bundled_class_good :
+  forall class : bytes, class_good Database.database class.
+Proof. exact bundled_class_good. Qed.
+
+Theorem C08_written_columns_spec :
+  forall (d : db) (p : enc_params) (dom : cdom) (ts : list tree) (st : ser_state),
+       enc_ready d p dom ts ->
+       dom_types_agree d dom ->
+       (forall i : inst, In i dom -> class_good d (i_class i)) ->
+       (forall i : inst, In i dom -> inst_ok d p i = true) ->
+       add_instances d p dom (List.map root ts) = Ok st ->
+       forall (cn : bytes) (ti : type_info) (canon : bytes) (pi : prop_info) (r : N) (i : inst),
+       In (cn, ti) (ss_types st) ->
+       In (canon, pi) (ti_props ti) ->
+       canon <> NAME ->
+       In r (ti_instances ti) ->
+       find_inst dom r = Some i ->
+       i_class i = cn /\
+       (inst_one_spelling d i ->
+        forall (n : bytes) (v : value) (s : bytes) (ty : N) (m : option migop),
+        In (n, v) (i_props i) ->
+        resolve_prop d cn n v = Ok (RProp canon s ty m) ->
+        prop_value p canon pi (ep_order p (pi_aliases pi)) i = migv p (pi_migration pi) v) /\
+       ((forall (n : bytes) (v : value) (s : bytes) (ty : N) (m : option migop),
+         In (n, v) (i_props i) -> resolve_prop d cn n v <> Ok (RProp canon s ty m)) ->
+        prop_value p canon pi (ep_order p (pi_aliases pi)) i = migv p (pi_migration pi) (pi_default pi) /\
+        (exists ty0 : N,
+           col_plan d (get_class d (string_of_bytes cn)) canon ty0 = Ok (pi_default pi, pi_type pi))).
+Proof. exact written_columns_spec. Qed.
+
+Theorem C08_known_props_roundtrip_partial :
+  forall (d : db) (ep : enc_params) (cmp : compression) (dom : cdom) (ts : list tree) 
+         (p : dec_params) (R : ser_state -> BinRoundTrip.column -> BinRoundTrip.col_read),
+       enc_ready d ep dom ts ->
+       BinRoundTrip.input_ok dom ts ->
+       BinRoundTrip.names_ok dom ->
+       dom_types_agree d dom ->
+       (forall i : inst, In i dom -> class_good d (i_class i)) ->
+       (forall i : inst, In i dom -> inst_ok d ep i = true) ->
+       dp_lim p = None ->
+       (forall e : encoded, encode_chunks d ep dom (List.map root ts) = Ok e -> BinRoundTrip.frame_ok p cmp e) ->
+       (forall st : ser_state,
+        add_instances d ep dom (List.map root ts) = Ok st ->
+        BinRoundTrip.sstr_ok st /\
+        BinRoundTrip.ser_names_ok st /\
+        BinRoundTrip.name_cols_ok st /\
+        (forall x : BinRoundTrip.column,
+         In x (BinRoundTrip.cols (ss_types st)) ->
+         fst (snd x) <> NAME -> BinRoundTrip.col_law d ep p dom st (BinRoundTrip.stI_of st) x (R st x))) ->
+       exists (b : bytes) (st : ser_state) (out : cdom),
+         encode_file d ep cmp dom (List.map root ts) = Ok b /\
+         add_instances d ep dom (List.map root ts) = Ok st /\
+         decode_file d p b = Ok out /\
+         BinRoundTrip.same_forest dom ts (BinRoundTrip.lbl st) out /\
+         (forall (c : bytes) (ti : type_info) (k : nat) (r : N),
+          In (c, ti) (ss_types st) ->
+          nth_error (ti_instances ti) k = Some r ->
+          exists i' : inst,
+            find_inst out (BinRoundTrip.lbl st r) = Some i' /\
+            i_ref i' = BinRoundTrip.lbl st r /\
+            i_class i' = class_of dom r /\
+            i_name i' = i_name (BinRoundTrip.src dom r) /\
+            BinRoundTrip.uid_norm p (collect_props (BinRoundTrip.read_props p (R st) (c, ti) k)) (i_props i')).
+Proof. exact known_props_roundtrip_partial. Qed.
+
+Theorem C08_each_alone_needs_types_agree_refuted :
+  inst_ok BinFileFacts.db0 BinFileFacts.ep0 (foo_string 1) = true /\
+       inst_ok BinFileFacts.db0 BinFileFacts.ep0 (foo_int 2) = true /\
+       BinColumnsFacts.is_ok (encode_file BinFileFacts.db0 BinFileFacts.ep0 None [foo_string 1] [1]) = true /\
+       BinColumnsFacts.is_ok (encode_file BinFileFacts.db0 BinFileFacts.ep0 None [foo_int 2] [2]) = true /\
+       encode_file BinFileFacts.db0 BinFileFacts.ep0 None [foo_string 1; foo_int 2] [1; 2] =
+       Err EE_TYPE_MISMATCH /\
+       encode_file BinFileFacts.db0 BinFileFacts.ep0 None [foo_int 2; foo_string 1] [2; 1] =
+       Err EE_TYPE_MISMATCH /\
+       class_good BinFileFacts.db0 (bstr "Folder") /\
+       ~ types_agree BinFileFacts.db0 (bstr "Folder") (flat_map i_props [foo_string 1; foo_int 2]).
+Proof. exact each_alone_needs_types_agree_refuted. Qed.
+
+Theorem C08_each_alone_needs_db_check_refuted :
+  class_cols_ok db_baddef "K" = false /\
+       inst_ok db_baddef BinFileFacts.ep0 (k_p 1) = true /\
+       inst_ok db_baddef BinFileFacts.ep0 (k_q 2) = true /\
+       BinColumnsFacts.is_ok (encode_file db_baddef BinFileFacts.ep0 None [k_p 1] [1]) = true /\
+       BinColumnsFacts.is_ok (encode_file db_baddef BinFileFacts.ep0 None [k_q 2] [2]) = true /\
+       encode_file db_baddef BinFileFacts.ep0 None [k_p 1; k_q 2] [1; 2] = Err EE_TYPE_MISMATCH /\
+       agree_check db_baddef (bstr "K") (flat_map i_props [k_p 1; k_q 2]) = true.
+Proof. exact each_alone_needs_db_check_refuted. Qed.
+
+Theorem C08_set_serializes_although_instance_alone_does_not :
+  inst_ok BinFileFacts.db0 BinFileFacts.ep0 (foo_attrs 2) = false /\
+       encode_file BinFileFacts.db0 BinFileFacts.ep0 None [foo_attrs 2] [2] = Err EE_UNSUPPORTED /\
+       BinColumnsFacts.is_ok
+         (encode_file BinFileFacts.db0 BinFileFacts.ep0 None [foo_string 1; foo_attrs 2] [1; 2]) = true.
+Proof. exact set_serializes_although_instance_alone_does_not. Qed.
+
